@@ -508,8 +508,10 @@ def split_rev_key(key, snap_insts):
 # Direct oracle on the implementation (independent restatement of the property text)
 
 
-def oracle(state, mods):
-    """Returns a list of (signature, one-line description, details)."""
+def oracle(state, mods, crashed=False):
+    """Returns a list of (signature, one-line description, details).  crashed=True (an exception
+    escaped run_to_completion): only what holds at every moment is checked - no stale or duplicate
+    entry, reverse map exactly inverse."""
     ast = mods["ast"]
     out = []
     flow_states = state.flow_states
@@ -519,7 +521,8 @@ def oracle(state, mods):
         st = fs._status.value
         cfg = state.flow_configs[fs.flow_id]
         for hk, h in fs.heads.items():
-            if st in LISTENING and h._status.value != "inactive" and 0 <= h._position < len(cfg.elements):
+            if (st in LISTENING or (crashed and st == "stopping")) and h._status.value != "inactive" \
+                    and 0 <= h._position < len(cfg.elements):
                 el = cfg.elements[h._position]
                 if isinstance(el, ast.SpecOp) and el.op == "match":
                     try:
@@ -555,6 +558,8 @@ def oracle(state, mods):
                         f"event_matching_heads[{k[0]!r}] holds ({k[1]}, {k[2]}) {c}x; a from-scratch scan finds it {expected.get(k, 0)}x",
                         {"entry": list(k), "count": c, "scan": expected.get(k, 0)}))
     for k, c in expected.items():
+        if crashed:
+            break
         if c > actual.get(k, 0):
             ist, hst, kind = describe(k[1], k[2])
             # under which name, if any, is the head registered?
@@ -577,6 +582,8 @@ def oracle(state, mods):
                     f"event_matching_heads_reverse_map is not the inverse of the index: extra={extra[:3]} missing={miss[:3]} differing={diff[:3]}",
                     {"extra": extra, "missing": miss, "differing": diff}))
     # ---- quiescence
+    if crashed:
+        return out
     if len(state.internal_events) != 0:
         out.append(("not-quiescent:internal-event-pending", f"{len(state.internal_events)} internal events pending after run_to_completion",
                     {"pending": [getattr(e, "name", None) for e in state.internal_events][:5]}))
@@ -1052,8 +1059,9 @@ class ProgGen:
         text += body
         src = "\n".join(text) + "\n"
         alphabet = [["ev", e, {}] for e in sorted(self.used_events)]
-        if any("(x=1)" in l for l in text):
-            alphabet.append(["ev", sorted(self.used_events)[0], {"x": 1}])
+        xs = sorted({l.split("(x=1)")[0].split()[-1].lstrip("(") for l in text if "(x=1)" in l})
+        if xs:
+            alphabet.append(["ev", xs[0], {"x": 1}])
         if self.uses_user:
             alphabet.append(["user", "hi"])
         if "BotAction" in src:
@@ -1225,16 +1233,26 @@ class Explorer:
             new_state = None
         except Exception as e:  # noqa: BLE001
             status = "crash:" + type(e).__name__
-            self.sink["crash_samples"].append({"history": hist, "error": repr(e)[:300]})
+            self.sink["crash_samples"].append({"history": hist, "error": repr(e)[:300], "program": self.prog["id"]})
+            new_state = None
+        except BaseException as e:  # the repository's verification hook (step budget)
+            if type(e).__name__ != "VerifStepBudgetExceeded":
+                raise
+            status = "hang"
             new_state = None
         finally:
             signal.setitimer(signal.ITIMER_REAL, 0)
             TR.enabled = False
             self.mods["sm"].random = random
         self.sink["runs"] += 1
+        crashed = status.startswith("crash")
         if status != "ok":
             self.sink["status_counts"][status] = self.sink["status_counts"].get(status, 0) + 1
-            return status, None, sched
+            if not crashed:
+                return status, None, sched
+            # an exception escaped (C10's business); the mutations traced so far are still a run of
+            # the model, and the state left behind must not hold stale entries
+            new_state = state
         events = TR.events
         TR.enabled = True   # observations during the snapshot
         after = snapshot(new_state)
@@ -1263,20 +1281,22 @@ class Explorer:
                 self.sink["segments"].append({"hash": h, "term": term, "n_ops": len(ops), "nontrivial": bool(nontrivial),
                                               "program": self.prog["id"], "history": hist})
             sterm, sh = snapshot_term(after, seg["obs"])
-            if sh not in self.sink["snap_seen"]:
+            if not crashed and sh not in self.sink["snap_seen"]:
                 self.sink["snap_seen"].add(sh)
                 self.sink["snaps"].append({"hash": sh, "term": sterm, "program": self.prog["id"], "history": hist})
         except Unsupported as e:
             self.sink["unsupported"].append({"what": str(e), **replay})
         # direct oracle
         fork_dangling = 0
-        for sig, what, det in oracle(new_state, self.mods):
+        for sig, what, det in oracle(new_state, self.mods, crashed=crashed):
             if sig == "dangling-reference:fork-head":
                 fork_dangling += 1
                 continue
             self.sink["findings"].append({"sig": sig, "what": what, "details": det, **replay})
         self.sink["obs_fork_table_dangling"] += fork_dangling
         self.sink["oracle_evals"] += 1
+        if crashed:
+            return status, None, sched
         return "ok", new_state, sched
 
     # ---- events ------------------------------------------------------------------------
@@ -1343,7 +1363,7 @@ class Explorer:
             self.sink["load"] = "init-error: " + repr(e)[:200]
             return
         if status != "ok":
-            self.sink["load"] = "boot-" + status
+            self.sink["load"] = "boot-" + status.split(":")[0]
             return
         self.sink["load"] = "ok"
         self.dfs(st, [], self.update_pending([], None, st), 0, copy)
@@ -1381,39 +1401,43 @@ class Explorer:
         return copy.deepcopy(state)
 
     def dfs(self, state, hist, pending, depth, copy):
-        if depth >= self.cfg["max_len"] or time.time() > self.deadline:
-            if time.time() > self.deadline:
-                self.sink["truncated"] = True
-            return
+        """Breadth first by history length, so that a budget cut only loses the longest histories."""
         sm = self.mods["sm"]
-        for sym in self.prog["alphabet"]:
-            scheds = [()]
-            done = 0
-            while scheds and done < self.cfg.get("max_scheds", 3):
-                if time.time() > self.deadline:
-                    self.sink["truncated"] = True
-                    return
-                pre = scheds.pop(0)
-                st = self.clone(state, copy)
-                ev = self.concretise(sym, pending)
-                if ev is None:
-                    break
-                if self.cfg.get("mode") == "aging":
-                    from datetime import timedelta
+        level = [(state, hist, pending)]
+        for d in range(depth, self.cfg["max_len"]):
+            nxt = []
+            for (st0, h0, pend0) in level:
+                for sym in self.prog["alphabet"]:
+                    scheds = [()]
+                    done = 0
+                    while scheds and done < self.cfg.get("max_scheds", 3):
+                        if time.time() > self.deadline:
+                            self.sink["truncated"] = True
+                            self.sink["truncated_at_len"] = d + 1
+                            return
+                        pre = scheds.pop(0)
+                        ev = self.concretise(sym, pend0)
+                        if ev is None:
+                            break
+                        st = self.clone(st0, copy)
+                        if self.cfg.get("mode") == "aging":
+                            from datetime import timedelta
 
-                    for fs in st.flow_states.values():
-                        fs.__dict__["status_updated"] = fs.__dict__["status_updated"] - timedelta(seconds=10)
-                h2 = hist + [sym if not pre else sym + [{"choices": list(pre)}]]
-                status, st2, sched = self.traced(st, lambda: sm.run_to_completion(st, ev), {"sched": pre}, h2)
-                done += 1
-                # other outcomes of random.choice
-                for j in range(len(pre), len(sched.trace)):
-                    if sched.trace[j][1] > 1:
-                        self.sink["choice_points"] += 1
-                        for c in range(1, sched.trace[j][1]):
-                            scheds.append(tuple(x[0] for x in sched.trace[:j]) + (c,))
-                if status == "ok":
-                    self.dfs(st2, h2, self.update_pending(pending, sym, st2), depth + 1, copy)
+                            for fs in st.flow_states.values():
+                                fs.__dict__["status_updated"] = fs.__dict__["status_updated"] - timedelta(seconds=10)
+                        h2 = h0 + [sym if not pre else sym + [{"choices": list(pre)}]]
+                        status, st2, sched = self.traced(st, lambda: sm.run_to_completion(st, ev), {"sched": pre}, h2)
+                        done += 1
+                        # other outcomes of random.choice
+                        for j in range(len(pre), len(sched.trace)):
+                            if sched.trace[j][1] > 1:
+                                self.sink["choice_points"] += 1
+                                for c in range(1, sched.trace[j][1]):
+                                    scheds.append(tuple(x[0] for x in sched.trace[:j]) + (c,))
+                        if status == "ok" and d + 1 < self.cfg["max_len"]:
+                            nxt.append((st2, h2, self.update_pending(pend0, sym, st2)))
+            level = nxt
+            self.sink["complete_len"] = d + 1
 
 
 def state_view(old, new, ex):
@@ -1425,7 +1449,7 @@ def new_sink():
     return {"runs": 0, "ops": 0, "op_hist": {}, "status_counts": {}, "unknown": [], "name_drift": [], "snapshot_problems": [],
             "segments": [], "snaps": [], "seg_seen": set(), "snap_seen": set(), "unsupported": [], "findings": [],
             "obs_fork_table_dangling": 0, "oracle_evals": 0, "crash_samples": [], "roundtrips": 0, "roundtrip_errors": 0,
-            "choice_points": 0, "truncated": False, "load": None}
+            "choice_points": 0, "truncated": False, "load": None, "complete_len": 0}
 
 
 def worker_main(jobfile, outfile):
@@ -1462,7 +1486,7 @@ def worker_main(jobfile, outfile):
 
 def make_programs(tier, seed):
     rng = random.Random(seed * 1000003 + 9)
-    n_gen = 230 if tier == "quick" else 1500
+    n_gen = 220 if tier == "quick" else 800
     progs = []
     modes = [None, None, None, "aging", "roundtrip"]
     seen = set()
@@ -1475,7 +1499,7 @@ def make_programs(tier, seed):
         if h in seen:
             continue
         seen.add(h)
-        progs.append({"id": f"g{len(progs)}", "src": src, "alphabet": alpha[:6], "mode": modes[len(progs) % len(modes)]})
+        progs.append({"id": f"g{len(progs)}", "src": src, "alphabet": alpha, "mode": modes[len(progs) % len(modes)]})
     libs = []
     for lp in library_programs():
         if lp.get("src") is None:
@@ -1496,6 +1520,7 @@ def run_workers(batches, cfg, tag, timeout_s):
     os.makedirs(d, exist_ok=True)
     env = dict(os.environ)
     env.update(C.impl_env())
+    env.setdefault("NEMO_GUARDRAILS_VERIF_MAX_STEPS", "20000")
     results = {}
     hangs = []
     pending = [(i, b) for i, b in enumerate(batches) if b]
@@ -1556,7 +1581,7 @@ def run(tier, seed, replay=None):
 
     quick = tier == "quick"
     cfg = {"max_len": 3 if quick else 4, "max_scheds": 3 if quick else 8, "run_timeout_s": 5,
-           "prog_budget_s": 9 if quick else 60}
+           "prog_budget_s": 6 if quick else 20}
     progs, libs = [], []
     corpus_dir = os.path.join(C.VERIF, "corpus", PID)
     corpus = []
@@ -1599,6 +1624,7 @@ def run(tier, seed, replay=None):
     segs, snaps = {}, {}
     findings, unknown, drift, snapprob, unsupported, crashes = [], [], [], [], [], []
     truncated = 0
+    complete = {}
     per_mode = {}
     for pid_, rec in results.items():
         r = rec["result"]
@@ -1612,6 +1638,7 @@ def run(tier, seed, replay=None):
         loads[ld] = loads.get(ld, 0) + 1
         per_mode[str(rec.get("mode"))] = per_mode.get(str(rec.get("mode")), 0) + 1
         truncated += 1 if r["truncated"] else 0
+        complete[r.get("complete_len", 0)] = complete.get(r.get("complete_len", 0), 0) + 1
         for s in r["segments"]:
             segs.setdefault(s["hash"], s)
         for s in r["snaps"]:
@@ -1680,6 +1707,10 @@ def run(tier, seed, replay=None):
         out.add_broken("correspondence:C09-untranslatable", f"{len(unsupported)}+ segments could not be printed as Coq terms: {u['what']}\n{u['src']}")
     if not results:
         out.add_broken("harness:no-results", json.dumps(hangs)[:2000])
+    elif loads.get("ok", 0) * 2 < len(all_progs) or agg["oracle_evals"] == 0:
+        out.add_broken("harness:exploration-degenerate",
+                       f"only {loads.get('ok', 0)} of {len(all_progs)} programs could be started ({loads}); run status {status_counts}; "
+                       f"first crashes: {json.dumps(crashes[:3])[:1500]}")
 
     n_nontrivial = sum(1 for s in seg_list if s["nontrivial"])
     out.coverage.update({
@@ -1694,6 +1725,7 @@ def run(tier, seed, replay=None):
             "corpus": len(corpus), "modes": per_mode, "load": loads, "library_load": lib_status,
             "history_length": cfg["max_len"], "choice_schedules_per_event": cfg["max_scheds"], "random_choice_points": agg["choice_points"],
             "op_mix": op_hist, "run_status": status_counts, "programs_truncated_by_budget": truncated,
+            "programs_by_exhaustively_explored_history_length": {str(k): v for k, v in sorted(complete.items())},
             "json_roundtrips": agg["roundtrips"], "json_roundtrip_errors(C11)": agg["roundtrip_errors"],
         },
         "traces_validated_against_impl": len(seg_list),
